@@ -2,7 +2,7 @@
 complete choice tree of the real generator is explored (gbmc.genexp.run_instance)."""
 from ..common import new_result, viol
 from ..genexp import Instance, run_instance
-from ..instances import families
+from ..instances import families, feature_instances
 
 ANCHORS = [
     "src/gbigsmiles/mol_gen.py",
@@ -22,14 +22,20 @@ MAX_EXEC = {"quick": 6000, "thorough": 150000}
 
 
 def cases(tier, seed, extra=()):
-    for inst in list(families(tier, seed)) + list(extra):
+    # feature-product instances first: they contain the largest choice trees (better pool utilisation)
+    fam = list(families(tier, seed))
+    for inst in feature_instances(tier, seed) + fam + list(extra):
         yield ("instance", {"inst": inst.as_json(), "tier": tier})
+    # the same parsed object generating every execution (history between generations of one object)
+    for inst in fam:
+        if inst.family in ("end-initiated", "transitions", "branched", "handover", "block", "bond-order") or tier == "thorough":
+            yield ("instance", {"inst": inst.as_json(), "tier": tier, "reuse": True})
 
 
 def evaluate(pid, want, data, well_posed=None):
     res = new_result()
     inst = Instance.from_json(data["inst"])
-    stats, viols, dist = run_instance(inst, max_exec=MAX_EXEC[data.get("tier", "quick")], want=want, well_posed=well_posed)
+    stats, viols, dist = run_instance(inst, max_exec=MAX_EXEC[data.get("tier", "quick")], want=want, well_posed=well_posed, reuse=bool(data.get("reuse")))
     for key, (what, script) in viols.items():
         if key.startswith(pid + "|"):
             viol(res, key, what, {"script": script, "text": inst.text})
@@ -38,7 +44,7 @@ def evaluate(pid, want, data, well_posed=None):
     res["traces"] = stats["execs"]
     res["evals"] = stats["execs"]
     res["capped"] = stats["capped"]
-    res["nontrivial"] = inst.name if stats["execs"] > 0 else None
+    res["nontrivial"] = (inst.name + ("|reused-object" if data.get("reuse") else "")) if stats["execs"] > 0 else None
     res["outcomes"] = [f"{inst.family}:{k[1]}" for k in dist]
     res["sample"] = {"instance": inst.text, "executions": stats["execs"], "choice_points": stats["points"], "distinct_outcomes": stats["outcomes"], "model_states": stats["model_states"]}
     res["extra"] = {"impl_executions": stats["execs"], "impl_choice_points": stats["points"], "impl_exceptions": stats["exceptions"], "model_states": stats["model_states"], "model_transitions": stats["model_transitions"]}
